@@ -16,7 +16,9 @@ CFG = {
         # error itself (span well-formed, covers the expression); the model only replays combine+expand
         "hull": {"header": _H, "model_fn": "model_hull", "rule": "O"},
     },
-    "rule_text": "tokens/spans: case = (source, spans the implementation attached to it: raw token stream / instruction span lists "
+    "rule_text": "Every family draws its sources from an alphabet with every line-ending flavour (\\n, \\r\\n, lone \\r, \\n\\r, \\r\\r\\n, U+2028, U+0085, VT, FF, "
+                 "no final terminator) before tags, inside tags, inside string literals, comments and raw blocks, and as the first/last byte. "
+                 "tokens/spans: case = (source, spans the implementation attached to it: raw token stream / instruction span lists "
                  "before and after fusion + expression spans + filtered tokens + lexer-error spans); distinct by source+spans; non-trivial = the "
                  "source has a line break AND a multi-byte character and at least 3 spans. report: case = one syntax/rendering error (message, "
                  "file name, source, span, expected notes, Display text); non-trivial = the source is multi-line or non-ASCII and the span is not on "
